@@ -754,6 +754,64 @@ impl Read for OneByte<'_> {
     }
 }
 
+/// A legal `io::Write` that takes FEWER bytes than offered (1..=k per call, cycling), as sockets,
+/// pipes and compressing encoders do: a writer that ignores the count returned by `write` loses data.
+struct ShortWriter {
+    buf: Vec<u8>,
+    k: usize,
+    calls: usize,
+}
+
+impl ShortWriter {
+    fn new(k: usize) -> ShortWriter {
+        ShortWriter { buf: Vec::new(), k, calls: 0 }
+    }
+}
+
+impl std::io::Write for ShortWriter {
+    fn write(&mut self, b: &[u8]) -> std::io::Result<usize> {
+        self.calls += 1;
+        let n = b.len().min(1 + self.calls % self.k);
+        self.buf.extend_from_slice(&b[..n]);
+        Ok(n)
+    }
+    fn flush(&mut self) -> std::io::Result<()> {
+        Ok(())
+    }
+}
+
+/// Runs a writer against short-writing destinations (bare, and behind a small `BufWriter`) and
+/// returns a description if the bytes differ from `want` (what the same writer put into a `Vec`).
+fn short_write_check(want: &[u8], f: &dyn Fn(&mut dyn std::io::Write) -> Result<(), String>) -> Option<String> {
+    for k in [1usize, 3, 7, 4096] {
+        let mut w = ShortWriter::new(k);
+        if let Err(e) = f(&mut w) {
+            return Some(format!("short writer (<= {} bytes per call): error {}", k, e));
+        }
+        if w.buf != want {
+            return Some(format!("short writer (<= {} bytes per call): {} bytes arrived, {} expected{}", k, w.buf.len(), want.len(), if w.buf.len() == want.len() { " (different content)" } else { "" }));
+        }
+        let mut w = std::io::BufWriter::with_capacity(5, ShortWriter::new(k));
+        if let Err(e) = f(&mut w) {
+            return Some(format!("BufWriter(5) over a short writer: error {}", e));
+        }
+        match w.into_inner() {
+            Ok(inner) if inner.buf == want => {}
+            Ok(inner) => return Some(format!("BufWriter(5) over a short writer (<= {}): {} bytes arrived, {} expected", k, inner.buf.len(), want.len())),
+            Err(e) => return Some(format!("BufWriter(5) over a short writer: flush error {}", e)),
+        }
+    }
+    None
+}
+
+fn short_write_verdict(want: &[u8], f: &dyn Fn(&mut dyn std::io::Write) -> Result<(), String>) -> Option<String> {
+    match catch(|| short_write_check(want, f)) {
+        Caught::Ok(d) => d,
+        Caught::Panic(m) => Some(format!("panic {}", m)),
+        Caught::Hang => Some("hang".into()),
+    }
+}
+
 fn tmp_path(tag: &str) -> std::path::PathBuf {
     let _ = std::fs::create_dir_all(TMP_DIR);
     std::path::Path::new(TMP_DIR).join(format!("{}-{}", std::process::id(), tag))
@@ -911,13 +969,32 @@ fn read_mesh_all_ways(ctx: &mut Ctx, bytes: &[u8], binary: bool, want: &M, tag: 
             Caught::Hang => bad.push(format!("from_reader/{}: hang", name)),
         }
     }
-    // (d) a real file, `Mesh::from_file` (its own 8 KiB BufReader)
-    let path = tmp_path(tag);
-    if std::fs::write(&path, bytes).is_ok() {
-        check(ctx, &mut bad, "from_file".into(), catch(|| conv(Mesh::from_file(&path))));
-        let _ = std::fs::remove_file(&path);
-    } else {
-        ctx.count("tmp_file_not_writable");
+    // (d) a real file, `Mesh::from_file` (its own 8 KiB BufReader). The format is detected from the
+    // CONTENT ("detected automatically"): the same bytes under the matching name, under the other
+    // format's extension, under a foreign or upper-case extension and without one read alike.
+    let stem = tag.rsplit_once('.').map(|(a, _)| a).unwrap_or(tag);
+    let names = [
+        tag.to_string(),
+        format!("{}.mesh", stem),
+        format!("{}.meshb", stem),
+        format!("{}.vtk", stem),
+        format!("{}.MESH", stem),
+        format!("{}.dat", stem),
+        stem.to_string(),
+    ];
+    for (k, name) in names.iter().enumerate() {
+        if k > 0 && *name == names[0] {
+            continue;
+        }
+        let path = tmp_path(name);
+        if std::fs::write(&path, bytes).is_ok() {
+            let label = if k == 0 { "from_file".to_string() } else { format!("from_file[name {}]", name.rsplit_once('.').map(|(_, e)| e).unwrap_or("none")) };
+            ctx.count("from_file_name_variants");
+            check(ctx, &mut bad, label, catch(|| conv(Mesh::from_file(&path))));
+            let _ = std::fs::remove_file(&path);
+        } else {
+            ctx.count("tmp_file_not_writable");
+        }
     }
     bad
 }
@@ -1324,6 +1401,16 @@ pub fn run_op(ctx: &mut Ctx, op: &str) {
                     if buf != spec {
                         verdict = Some(("partition-format", "bytes differ from the documented layout".to_string()));
                     }
+                    let ids3 = ids.clone();
+                    let d = match catch(|| short_write_check(&buf, &|w| partition::write(w, ids3.iter().cloned()).map_err(|e| e.to_string()))) {
+                        Caught::Ok(d) => d,
+                        Caught::Panic(m) => Some(format!("panic {}", m)),
+                        Caught::Hang => Some("hang".into()),
+                    };
+                    if let (Some(d), true) = (d, verdict.is_none()) {
+                        verdict = Some(("writer-short-write", format!("partition::write: {}", d)));
+                    }
+                    ctx.count("short_writer_checks");
                     match &back {
                         Ok(v) if *v == ids => {}
                         other => {
@@ -1367,6 +1454,7 @@ pub fn run_op(ctx: &mut Ctx, op: &str) {
             let in_quantifier = n >= 1 && c >= 1 && c <= u16::MAX as usize;
             let res: Caught<Result<(Vec<u8>, weight::Result<weight::Array>), String>>;
             let mut same = false;
+            let mut sw: Option<String> = None;
             if kind == "i" {
                 let Some(vals) = toks.iter().map(|s| s.parse::<i64>().ok()).collect::<Option<Vec<i64>>>() else { return bad(ctx) };
                 let rows: Vec<Vec<i64>> = (0..n).map(|i| vals[i * c..(i + 1) * c].to_vec()).collect();
@@ -1379,6 +1467,10 @@ pub fn run_op(ctx: &mut Ctx, op: &str) {
                 });
                 if let Caught::Ok(Ok((_, Ok(weight::Array::Integers(back))))) = &res {
                     same = *back == rows;
+                }
+                if let Caught::Ok(Ok((buf, _))) = &res {
+                    sw = short_write_verdict(buf, &|w| weight::write_integers(w, rows.iter().map(|r| r.iter().cloned())).map_err(|e| e.to_string()));
+                    ctx.count("short_writer_checks");
                 }
             } else if kind == "f" {
                 let Some(vals) = toks.iter().map(|s| u64::from_str_radix(s, 16).ok()).collect::<Option<Vec<u64>>>() else { return bad(ctx) };
@@ -1395,6 +1487,10 @@ pub fn run_op(ctx: &mut Ctx, op: &str) {
                     let bits: Vec<Vec<u64>> = back.iter().map(|r| r.iter().map(|x| x.to_bits()).collect()).collect();
                     same = bits == rows;
                 }
+                if let Caught::Ok(Ok((buf, _))) = &res {
+                    sw = short_write_verdict(buf, &|w| weight::write_floats(w, rows.iter().map(|r| r.iter().map(|b| f64::from_bits(*b)))).map_err(|e| e.to_string()));
+                    ctx.count("short_writer_checks");
+                }
             } else {
                 return bad(ctx);
             }
@@ -1408,6 +1504,9 @@ pub fn run_op(ctx: &mut Ctx, op: &str) {
                     }
                     if !in_quantifier && !same {
                         ctx.count(&format!("outside_quantifier_not_identical_{}_{}", kind, if n == 0 { "empty" } else { "zero_width" }));
+                    }
+                    if let (Some(d), true) = (sw.take(), verdict.is_none() && in_quantifier) {
+                        verdict = Some(("writer-short-write", format!("weight::write_{}: {}", if kind == "i" { "integers" } else { "floats" }, d)));
                     }
                     format!("{} | {}", cap(hex(&buf)), fmt_w(&back))
                 }
@@ -1514,6 +1613,13 @@ pub fn run_op(ctx: &mut Ctx, op: &str) {
                             }
                         }
                         _ => {}
+                    }
+                    if binary && in_quantifier && verdict.is_none() {
+                        let mesh = m.to_mesh();
+                        ctx.count("short_writer_checks");
+                        if let Some(d) = short_write_verdict(&buf, &|w| mesh.serialize_medit_binary(w).map_err(|e| e.to_string())) {
+                            verdict = Some(("writer-short-write", format!("serialize_medit_binary: {}", d)));
+                        }
                     }
                     let prefix = if binary { format!("{} | ", cap(hex(&buf))) } else { format!("{} | tok=1 | ", cap(hex(&buf))) };
                     finish(prefix, dec).0
